@@ -42,6 +42,7 @@ class Outcome:
         self.handlers = kw.get("handlers")
         self.stats = kw.get("stats", {})
         self.line_promised = kw.get("line_promised", False)
+        self.pinned = kw.get("pinned") or []
 
     def __repr__(self):
         if self.kind == "accept":
@@ -281,19 +282,27 @@ def apply_section_dt(dt, value):
     raise KeyError(dt)
 
 
-def ref_load(ast, resources, main_url, packages=None, env=None, sm=None):
+def ref_load(ast, resources, main_url, packages=None, env=None, sm=None, pin=False):
+    """pin=True: where the statement leaves open WHICH of several claiming children a header or
+    key line goes to (zones U1-U3), follow the resolution rule of the pinned tree -- the first
+    child, in declaration order, that claims the line: a fixed-name child claims by name (and
+    then demands its own kind and type), a wildcard section slot claims by type.  The zones met
+    are listed in Outcome.pinned."""
+    pinned = []
     try:
-        return _ref_load(ast, resources, main_url, packages or {}, env, sm)
+        out = _ref_load(ast, resources, main_url, packages or {}, env, sm, pinned if pin else None)
+        out.pinned = pinned
+        return out
     except _Reject as e:
         return Outcome("reject", rule=e.rule, lineno=e.lineno, url=e.url, value=e.value,
-                       line_promised=e.promised)
+                       line_promised=e.promised, pinned=pinned)
     except _Unspec as e:
         return Outcome("unspec", zone=e.zone)
     except model.Unspecified as e:
         return Outcome("unspec", zone=e.zone)
 
 
-def _ref_load(ast, resources, main_url, packages, env, sm):
+def _ref_load(ast, resources, main_url, packages, env, sm, pinned=None):
     sm = copy.deepcopy(sm) if sm is not None else compile_schema(ast, packages)
     def reading():
         try:
@@ -314,6 +323,19 @@ def _ref_load(ast, resources, main_url, packages, env, sm):
         if st == tname:
             return True
         return st in sm.abstract and tname in sm.abstract[st]
+
+    def pinned_slot(T, tname, name, lineno, url):
+        for it in T.items:
+            if not it.wild:
+                if name is not None and it.name == name:
+                    if not it.is_section():
+                        raise _Reject("section-names-key", lineno, url)
+                    if not fits_type(it, tname):
+                        raise _Reject("no-slot", lineno, url)
+                    return it
+            elif it.is_section() and fits_type(it, tname):
+                return it
+        raise _Reject("no-slot", lineno, url)
 
     for ev in events:
         kind = ev[0]
@@ -360,7 +382,9 @@ def _ref_load(ast, resources, main_url, packages, env, sm):
                     wild = it
             if target is not None and target.is_section():
                 if wild is not None:
-                    raise _Unspec("U3")
+                    if pinned is None:
+                        raise _Unspec("U3")
+                    pinned.append("U3")       # pinned rule: the fixed name claims the line
                 raise _Reject("key-names-section", lineno, url)
             if target is None:
                 if wild is None:
@@ -403,17 +427,24 @@ def _ref_load(ast, resources, main_url, packages, env, sm):
                         clash = True
                 if clash:
                     if any(c.wild for c in cands):
-                        if name in F.used_names:
-                            # however the header is resolved, the name is already taken
-                            raise _Reject("name-reuse", lineno, url, promised=False)
-                        raise _Unspec("U1")
-                    raise _Reject("section-names-key", lineno, url)
+                        if pinned is None:
+                            if name in F.used_names:
+                                # however the header is resolved, the name is already taken
+                                raise _Reject("name-reuse", lineno, url, promised=False)
+                            raise _Unspec("U1")
+                        pinned.append("U1")
+                        cands = [pinned_slot(T, tname, name, lineno, url)]
+                    else:
+                        raise _Reject("section-names-key", lineno, url)
             if not cands:
                 raise _Reject("no-slot", lineno, url)
             if len(cands) > 1:
-                if name and name in F.used_names:
-                    raise _Reject("name-reuse", lineno, url, promised=False)
-                raise _Unspec("U2")
+                if pinned is None:
+                    if name and name in F.used_names:
+                        raise _Reject("name-reuse", lineno, url, promised=False)
+                    raise _Unspec("U2")
+                pinned.append("U2")
+                cands = [pinned_slot(T, tname, name, lineno, url)]
             slot = cands[0]
             if slot.wild and slot.name == "+" and not name:
                 raise _Reject("unnamed-in-plus-slot", lineno, url)
